@@ -1,5 +1,5 @@
 """Shared facts for the file-system backend rules (C17 / C18 / C19)."""
-from .. import flow
+from .. import flow, inline
 from ..facts import callee_def, short
 from ..report import AnchorMissing
 
@@ -40,8 +40,75 @@ def is_mutating(t):
     return short(callee_def(t)) in MUTATING
 
 
-def fs_bodies(db):
+_FS_VIEW = {}
+_FS_SETS = {}
+
+
+def _raw_fs_bodies(db):
     return [b for b in db.bodies.values() if b.crate == "s3s_fs" and b.kind in ("Fn", "AssocFn", "Closure")]
+
+
+def fs_policy(db, caller, term, callee):
+    """what the file-system rules inline: a *parametric* confinement helper (`fn resolve_within(base, path)`: confines to whatever base its caller
+    passes - judged at the caller) and ordinary private helpers; a function that confines to the root or to a confined directory by itself
+    is a role (the confinement function family) and stays a call"""
+    if callee is None or callee.crate != "s3s_fs":
+        return False
+    anchored, parametric = _FS_SETS.get(db.dir, (set(), set()))
+    if callee.name in parametric:
+        return callee.kind in ("Fn", "AssocFn") and not callee.raw.get("coroutine") and len(callee.blocks) <= inline.MAX_BLOCKS
+    if callee.name in anchored:
+        return False
+    return inline.default_policy(db, caller, term, callee)
+
+
+def fs_bodies(db):
+    """the bodies of the file-system backend as the rules study them (helpers inlined by fs_policy; a helper that is inlined everywhere it is
+    used is not studied on its own)"""
+    if db.dir in _FS_VIEW:
+        return _FS_VIEW[db.dir]
+    raw = _raw_fs_bodies(db)
+    # the confinement function family on the code as written
+    fam = {}
+    cands = [b for b in raw if b.kind != "Closure" and "PathBuf" in b.raw.get("ret", "")]
+    for b in cands:
+        if any(callee_def(t).endswith("Absolutize::absolutize_virtually") for _, t in b.calls()):
+            fam[b.name] = b
+    parametric = set()
+    for n, b in fam.items():
+        par = True
+        for bi, t in b.calls():
+            if callee_def(t).endswith("Absolutize::absolutize_virtually"):
+                sl = flow.backward(b, t["args"][1], at=bi)
+                if ("FileSystem", "root") in sl.fields or not sl.params or [1 for _, c, _ in sl.calls if not flow.is_transparent(c) and short(callee_def(c)) not in ("as_ref", "as_path", "borrow", "deref")]:
+                    par = False
+        if par and not b.raw.get("impl_trait") and b.name not in db.reachable_fns:
+            parametric.add(n)
+    anchored = set(fam) - parametric
+    # functions that hand out a path obtained from an anchored one are roles too (transitively)
+    changed = True
+    while changed:
+        changed = False
+        for b in cands:
+            if b.name in anchored or b.name in parametric:
+                continue
+            if any(callee_def(t) in anchored or callee_def(t) in parametric for _, t in b.calls()):
+                anchored.add(b.name)
+                changed = True
+    _FS_SETS.clear()
+    _FS_SETS[db.dir] = (anchored, parametric)
+    inl = {b.name: inline.inlined(db, b, fs_policy) for b in raw}
+    helpers = set()
+    for ib in inl.values():
+        for h in getattr(ib, "inlined_from", []):
+            helpers.add(h)
+            hb = db.bodies.get(h)
+            if hb is not None and hb.kind == "Closure":
+                helpers.add(hb.parent)
+    out = [ib for n, ib in inl.items() if n not in helpers]
+    _FS_VIEW.clear()
+    _FS_VIEW[db.dir] = out
+    return out
 
 
 def effects(db):
